@@ -114,7 +114,23 @@ func pathOf(e ast.Expr) (string, bool) {
 	return "", false
 }
 
-func leanName(path string) string { return strings.ReplaceAll(path, ".", "_") }
+var leanKw = map[string]bool{"instance": true, "end": true, "from": true, "at": true, "fun": true, "let": true, "have": true,
+	"show": true, "open": true, "in": true, "by": true, "do": true, "then": true, "else": true, "if": true, "match": true,
+	"with": true, "where": true, "local": true, "private": true, "class": true, "structure": true, "inductive": true,
+	"mutual": true, "universe": true, "import": true, "export": true, "macro": true, "syntax": true, "notation": true,
+	"example": true, "axiom": true, "abbrev": true, "def": true, "theorem": true, "opaque": true, "partial": true,
+	"unsafe": true, "for": true, "unless": true, "return": true, "try": true, "catch": true, "until": true, "repeat": true,
+	"while": true, "break": true, "continue": true, "type": true, "Type": true, "Prop": true, "Sort": true, "section": true,
+	"namespace": true, "variable": true, "deriving": true, "attribute": true}
+
+// leanName turns a Go path into a Lean identifier (Lean keywords get a trailing underscore).
+func leanName(path string) string {
+	n := strings.ReplaceAll(path, ".", "_")
+	if leanKw[n] {
+		n += "_"
+	}
+	return n
+}
 
 // useVar registers a free path as a parameter if it is not a local.
 func (x *tr) useVar(path string) (string, string) {
@@ -467,7 +483,7 @@ func (x *tr) stmts(list []ast.Stmt, ind string, end func(ind string) string) str
 				}
 				leanType(ty)
 				x.types[n.Name] = ty
-				out += ind + "let " + n.Name + " := " + val + "\n"
+				out += ind + "let " + leanName(n.Name) + " := " + val + "\n"
 			}
 		}
 		return out + x.stmts(rest, ind, end)
